@@ -81,7 +81,36 @@ def generate(ctx):
             pre = r.choice([b'', b'\x00', gen.enc(w)])
             bid = ctx.add('path_batch%s %s %s %s' % ('@' + pre.hex() if pre else '', e, fn, ' '.join(texts))).id
             ctx.batches.append((fn, texts, pre, singles, bid))
+    late_error_stream(ctx)
     lazy_stream(ctx, ds)
+
+
+def late_error_stream(ctx):
+    """selections that FAIL, but only at a LATER candidate (an arithmetic expression that is reached only for some elements: under
+    exists(), inside a nested filter): by then earlier candidates have passed -- whatever the function does internally, an error return
+    must leave data and offsets as the caller passed them (a seeded `lazy trailing filter` wrote each hit as soon as it was found)"""
+    u = lambda n: ('u', n)
+    o = lambda *kv: ('o', sorted(kv))
+    docs = [('a', [o((b'a', u(1)), (b'k', ('s', b'v'))), o((b'a', u(2)), (b'x', o((b'y', u(1))))), o((b'a', u(1)))]),
+            ('a', [o((b'a', u(1))), o((b'a', u(1))), o((b'a', u(1)), (b'x', ('a', [u(1), u(2)])))]),
+            o((b'p', o((b'a', u(1)))), (b'q', o((b'a', u(1)), (b'x', o((b'y', u(3))))))),
+            ('a', [o((b'a', u(1)), (b'x', o((b'y', u(1))))), o((b'a', u(1)))]),          # fails at the FIRST candidate
+            ('a', [o((b'a', u(1))), o((b'a', u(1)))])]                                   # never fails
+    arith = 'e(C;D78;FAb+(p(C;D79)|vu1))'
+    arith2 = 'e(C;D78;B;FAb*(p(C)|vu2))'
+    paths = ['R;B;Fbor(beq(p(C;D61)|vu1)|%s)' % arith, 'R;B;Fbor(%s|beq(p(C;D61)|vu1))' % arith, 'R;W;Fbor(beq(p(C;D61)|vu1)|%s)' % arith,
+             'R;B;Fbor(beq(p(C;D61)|vu1)|%s)' % arith2, 'R;B;Fband(beq(p(C;D61)|vu1)|bor(e(C;D61)|%s))' % arith, 'R;B;F%s' % arith,
+             'R;B;Fbor(beq(p(C;D61)|vu1)|%s);D61' % arith]
+    for v in docs:
+        e = gen.hexarg(gen.enc(v))
+        for p in paths:
+            for op in ['select %s %s %s' % (e, p, m) for m in ('all', 'first', 'array', 'mixed')] + \
+                      ['%s %s %s' % (f, e, p) for f in ('get_by_path', 'get_by_path_first', 'get_by_path_array')]:
+                name, rest = op.split(' ', 1)
+                base = ctx.add(op).id
+                for pre in (b'\x00', gen.enc(docs[0])):
+                    ctx.trials.append((op, pre, base, ctx.add('%s@%s %s' % (name, pre.hex(), rest)).id))
+            ctx.count('selections_that_fail_at_a_later_candidate_stream')
 
 
 def lazy_stream(ctx, ds):
